@@ -190,6 +190,10 @@ def make_recipe(rng: random.Random, tier: str, idx: int) -> dict:
         mode = {16: "none", 17: "first_none", 18: "later_none"}[special]
     else:
         mode = MODES_OK[idx % 3] if rng.random() < 0.8 else rng.choice(MODES_OK)
+    if gen != "gen_wilson" and rng.random() < 0.3:
+        # a hand-written configuration (the dataset is assembled with MazeDataset(cfg, mazes)): a LIST-valued generator argument, the way
+        # a user or a JSON file writes a coordinate; it must come back as it was
+        kwargs = dict(kwargs, start_coord=[rng.randrange(g), rng.randrange(g)])
     rc = dict(name=f"d{idx}", gen=gen, kwargs=kwargs, grid_n=g, seed=seed, mazes=mazes, mode=mode, tag="generated")
     if mode in ("collected", "both") and rng.random() < 0.35:
         # a dataset put together by hand from an already-collected one (sliced / merged): its config's n_mazes is stale
